@@ -13,8 +13,8 @@ Open Scope N_scope.
 (* dropped without any effect: empty datagrams, datagrams whose record framing is wrong
    (ErrInvalidPacketLength) and records whose header does not decode *)
 Theorem C08_undecodable_dropped_partial :
-  forall (W : nat) (full : bool) (s : rstate) (d : dgram),
-    undecodable d -> d <> DOtherErr -> recv_dgram W full s d = (s, []).
+  forall (W : nat) (full neg : bool) (s : rstate) (d : dgram),
+    undecodable d -> d <> DOtherErr -> (d = DLenErr -> neg = false) -> recv_dgram W full neg s d = (s, []).
 Proof. exact undecodable_dropped_partial. Qed.
 Print Assumptions C08_undecodable_dropped_partial.
 
@@ -22,10 +22,18 @@ Print Assumptions C08_undecodable_dropped_partial.
    (the handshake in progress fails / Read returns an error).  Witness replayed by the harness:
    the one-byte datagram 2c *)
 Theorem C08_undecodable_dropped_refuted :
-  forall (W : nat) (full : bool) (s : rstate), r_closed s = false ->
-    exists d, undecodable d /\ recv_dgram W full s d = (s, [OErr]).
+  forall (W : nat) (full neg : bool) (s : rstate), r_closed s = false ->
+    exists d, undecodable d /\ recv_dgram W full neg s d = (s, [OErr]).
 Proof. exact undecodable_dropped_refuted. Qed.
 Print Assumptions C08_undecodable_dropped_refuted.
+
+(* while a dual-stack endpoint is still negotiating the version, even a length/framing error (any
+   datagram shorter than a record header, e.g. one byte) ends the handshake *)
+Theorem C08_undecodable_negotiating_refuted :
+  forall (W : nat) (full : bool) (s : rstate), r_closed s = false ->
+    recv_dgram W full true s DLenErr = (s, [OErr]).
+Proof. exact undecodable_negotiating_refuted. Qed.
+Print Assumptions C08_undecodable_negotiating_refuted.
 
 (* ... and an unprotected record with a fresh number whose content does not decode is answered with a
    fatal decode_error alert and an error.  Witness replayed by the harness: 63fefd000000000000f00500010a *)
@@ -57,6 +65,7 @@ Print Assumptions C08_queue_bound.
 
 Theorem C08_limits_generated : N.of_nat max_queue = g_max_queue /\ max_size = 2000000 /\ max_count = 1000.
 Proof. vm_compute. repeat split; reflexivity. Qed.
+Print Assumptions C08_limits_generated.
 
 Theorem C08_reassembly_bounds :
   forall K (ops : list api), Forall (fun a => api_nfrags a <= K) ops ->
